@@ -25,7 +25,7 @@ REPO = os.environ.get("LUQUM_REPO", "/repo")
 LEAN_DIR = os.path.join(VERIF, "lean")
 DRIVER = os.path.join(LEAN_DIR, ".lake", "build", "bin", "luqumdrv")
 OUT_DIR = os.path.join(VERIF, "out")
-EVIDENCE_DIR = os.path.join(VERIF, "evidence")
+EVIDENCE_DIR = os.environ.get("VERIF_EVIDENCE_DIR") or os.path.join(VERIF, "evidence")
 STD_AXIOMS = {"propext", "Classical.choice", "Quot.sound"}
 
 _scratch = None
